@@ -77,7 +77,7 @@ def gen_case(rng):
     bsz = rng.choice((64, 100, 128, 256, 512, 4096, 65536))
     n = rng.choice((1, 1, 2, 3))
     relative = rng.random() < 0.12      # bounds given relative to the (simulated) program start, under a --tz-offset
-    kw = {"notations": (1, 1, 2, 3)} if relative else {}      # zone-less stamps would be read in the --tz-offset zone
+    kw = {"notations": (1, 1, 2, 3)} if relative else {"notations": merge.NOTATIONS_WIDE}      # zone-less stamps would be read in the --tz-offset zone
     srcs = merge.gen_sources(rng, n, bsz, max_msgs=rng.choice((4, 12, 40)),
                              containers=("plain", "plain", "plain", "gz", "bz2", "xz", "lz4"),
                              allow_degenerate=False, tie_heavy=rng.random() < 0.6, frac_choices=(3, 3, 6, 1),
